@@ -85,6 +85,9 @@ def do_replay(pid, path, impl):
 
 
 def run(pid, tier, seed, replay=None):
+    if pid == "C13":
+        import p13
+        return p13.run(tier, seed, replay)
     if pid in PLAN:
         return run_generic(pid, tier, seed, replay)
     print("unknown property", pid)
